@@ -52,13 +52,10 @@ def main():
             )
             tail = r.stdout.strip().splitlines()[-1] if r.stdout.strip() else r.stderr[-300:]
             print(f"repo tests on mutant: rc={r.returncode} {tail}")
-        for d in ("evidence", "replay"):
-            if os.path.isdir(os.path.join(VERIF, d)):
-                shutil.copytree(os.path.join(VERIF, d), os.path.join(keep, d))
         for c in ns.checks:
             hit = False
             for seed in ns.seeds.split(","):
-                env = {**os.environ, "VERIF_REPO": repo, "VERIF_SEED": seed}
+                env = {**os.environ, "VERIF_REPO": repo, "VERIF_SEED": seed, "VERIF_OUT": os.path.join(scratch, "out")}
                 r = subprocess.run(
                     ["/venv/bin/python", "-m", f"checks.c{c[1:].lower()}", "--tier", ns.tier],
                     cwd=VERIF, env=env, capture_output=True, text=True,
@@ -75,11 +72,6 @@ def main():
             if not hit:
                 rc = 1
     finally:
-        for d in ("evidence", "replay"):
-            src = os.path.join(keep, d)
-            if os.path.isdir(src):
-                shutil.rmtree(os.path.join(VERIF, d), ignore_errors=True)
-                shutil.copytree(src, os.path.join(VERIF, d))
         shutil.rmtree(scratch, ignore_errors=True)
         shutil.rmtree(keep, ignore_errors=True)
     return rc
